@@ -555,7 +555,6 @@ def replay(case):
         finally:
             shutil.rmtree(tmp, ignore_errors=True)
     if k == "derived_io":
-        import tempfile
 
         with tempfile.TemporaryDirectory(prefix="nssmc_c18r_") as td:
             return judge_derived_io(tuple(case["how"]), case["fmt"], td)
